@@ -231,3 +231,47 @@ Lemma encode64_neg m e : encode 53 11 true m e = 2 ^ 63 + encode 53 11 false m e
 Proof. unfold encode. cbv zeta. rewrite N.add_0_l. reflexivity. Qed.
 Lemma encode32_neg m e : encode 24 8 true m e = 2 ^ 31 + encode 24 8 false m e.
 Proof. unfold encode. cbv zeta. rewrite N.add_0_l. reflexivity. Qed.
+
+(** ** f64 -> f32 (normal range): a finite normal f64 with fraction field [mf] and biased exponent
+    [ef] (value (2^52 + mf) * 2^(ef - 1075)) whose f32 exponent is in the normal range becomes
+    q * 2^(ef - 1023 - 23) with q = round_even (2^52 + mf) 29: nearest f32, ties to even, with the
+    carry into the exponent (and to infinity at the top). *)
+Lemma size_53 mf : mf < 2 ^ 52 -> N.size (mf + 2 ^ 52) = 53.
+Proof.
+  intros H. rewrite N.size_log2 by (change (2 ^ 52) with 4503599627370496; lia).
+  rewrite (N.log2_unique (mf + 2 ^ 52) 52); [reflexivity|lia|].
+  change (2 ^ N.succ 52) with (2 ^ 52 + 2 ^ 52). lia.
+Qed.
+
+Theorem f32_of_f64_normal mf ef :
+  mf < 2 ^ 52 -> 897 <= ef -> ef <= 2046 ->       (* 897 = 1023 - 126: the result is a normal f32 or overflows *)
+  let q := round_even (mf + 2 ^ 52) 29 in
+  let b := encode 24 8 false (mf + 2 ^ 52) (Z.of_N ef - 1075) in
+  2 ^ 23 <= q <= 2 ^ 24
+  /\ (q < 2 ^ 24 -> ef <= 1150 -> f32_sign b = 0 /\ f32_exp b = ef - 896 /\ 2 ^ 23 + f32_frac b = q)
+  /\ (q = 2 ^ 24 -> ef < 1150 -> f32_sign b = 0 /\ f32_exp b = ef - 895 /\ f32_frac b = 0)
+  /\ (1150 < ef \/ (q = 2 ^ 24 /\ ef = 1150) -> b = 255 * 2 ^ 23).
+Proof.
+  intros Hmf Hlo Hhi. cbv zeta. unfold encode. cbv zeta. rewrite (size_53 mf Hmf).
+  change (N.shiftl 1 (8 - 1) - 1) with 127. change (Z.of_N 127) with 127%Z.
+  replace (1 - 127 <=? Z.of_N ef - 1075 + Z.of_N 53 - 1)%Z with true by (symmetry; apply Z.leb_le; lia).
+  change (24 <? 53) with true. cbv iota. change (53 - 24) with 29. change (N.shiftl 1 8 - 1) with 255. change (24 - 1) with 23.
+  rewrite !N.shiftl_mul_pow2, N.mul_1_l.
+  replace (Z.to_N (Z.of_N ef - 1075 + Z.of_N 53 - 1 + 127)) with (ef - 896) by lia.
+  assert (Hs : 0 < 29) by lia.
+  destruct (round_even_nearest (mf + 2 ^ 52) 29 Hs) as (H1 & H2 & _). set (q := round_even (mf + 2 ^ 52) 29) in *.
+  change (29 - 1) with 28 in *.
+  change (2 ^ 52) with 4503599627370496 in *. change (2 ^ 29) with 536870912 in *. change (2 ^ 28) with 268435456 in *.
+  change (2 ^ 23) with 8388608 in *. change (2 ^ 24) with 16777216 in *.
+  assert (Hq : 8388608 <= q <= 16777216) by lia.
+  split; [exact Hq|].
+  unfold f32_sign, f32_exp, f32_frac. change (2 ^ 23) with 8388608. change (2 ^ 31) with 2147483648. change (2 ^ 8) with 256.
+  rewrite N.add_0_l. repeat split.
+  - replace (255 * 8388608 <=? (ef - 896) * 8388608 + (q - 8388608)) with false by (symmetry; apply N.leb_gt; lia). lia.
+  - replace (255 * 8388608 <=? (ef - 896) * 8388608 + (q - 8388608)) with false by (symmetry; apply N.leb_gt; lia). lia.
+  - replace (255 * 8388608 <=? (ef - 896) * 8388608 + (q - 8388608)) with false by (symmetry; apply N.leb_gt; lia). lia.
+  - replace (255 * 8388608 <=? (ef - 896) * 8388608 + (q - 8388608)) with false by (symmetry; apply N.leb_gt; lia). lia.
+  - replace (255 * 8388608 <=? (ef - 896) * 8388608 + (q - 8388608)) with false by (symmetry; apply N.leb_gt; lia). lia.
+  - replace (255 * 8388608 <=? (ef - 896) * 8388608 + (q - 8388608)) with false by (symmetry; apply N.leb_gt; lia). lia.
+  - intros Hov. replace (255 * 8388608 <=? (ef - 896) * 8388608 + (q - 8388608)) with true by (symmetry; apply N.leb_le; lia). reflexivity.
+Qed.
